@@ -8,7 +8,7 @@ use crate::examples::spending_limit_policy::SpendingLimitPolicyContract;
 use crate::examples::threshold_policy::ThresholdPolicyContract;
 use crate::report::Report;
 use crate::rng::Rng;
-use crate::world::{invoke, tag, Fail, Inv, World};
+use crate::world::{Must, invoke, tag, Fail, Inv, World};
 use crate::Cfg;
 use soroban_sdk::auth::{Context, ContractContext, CreateContractHostFnContext, ContractExecutable};
 use soroban_sdk::{Address, Bytes, BytesN, Env, IntoVal, Map, String as SString, Symbol, Val, Vec as SVec};
@@ -163,7 +163,7 @@ fn thresholds(cfg: &Cfg, rep: &mut Report) {
                         let want = t2 >= 1 && t2 <= if weighted { total } else { n as u64 };
                         rep.evaluations += 1;
                         rep.check("ref", got.is_ok() == want, &format!("C14/ref/{pname}/set_threshold/outcome"), || format!("set_threshold({t2}) with reach {}: {got:?}", if weighted { total } else { n as u64 }));
-                        let cur: u32 = invoke(e, &policy, "get_threshold", args!(e, rule_id, account.clone())).expect("get_threshold");
+                        let cur: u32 = invoke(e, &policy, "get_threshold", args!(e, rule_id, account.clone())).must("get_threshold");
                         if got.is_err() {
                             rep.check("res", cur != t2 as u32 || t2 == t, &format!("C14/res/{pname}/set_threshold/refused-value-stored"), || format!("refused set_threshold({t2}) but threshold is now {cur}"));
                         }
@@ -172,7 +172,7 @@ fn thresholds(cfg: &Cfg, rep: &mut Report) {
                     // threshold; after an accepted edit every subset is re-evaluated against the new map
                     if weighted && total <= u32::MAX as u64 {
                         let mut wts: Vec<u64> = weights.iter().map(|x| *x as u64).collect();
-                        let cur_t: u32 = invoke(e, &policy, "get_threshold", args!(e, rule_id, account.clone())).expect("get_threshold");
+                        let cur_t: u32 = invoke(e, &policy, "get_threshold", args!(e, rule_id, account.clone())).must("get_threshold");
                         for (si, nw) in [(n - 1, u32::MAX), (0usize, weights[0].saturating_add(7)), (n / 2, u32::MAX - 1), (0usize, 1u32)] {
                             let mut cand = wts.clone();
                             cand[si] = nw as u64;
@@ -203,7 +203,7 @@ fn thresholds(cfg: &Cfg, rep: &mut Report) {
                         }
                     }
                     if weighted && total <= u32::MAX as u64 {
-                        let cur: u32 = invoke(e, &policy, "get_threshold", args!(e, rule_id, account.clone())).expect("get_threshold");
+                        let cur: u32 = invoke(e, &policy, "get_threshold", args!(e, rule_id, account.clone())).must("get_threshold");
                         let new_total = total - weights[0] as u64;
                         let got = call(&w, &policy, &account, "set_signer_weight", args!(e, signers[0].clone(), 0u32, r.clone(), account.clone()), true);
                         rep.check("ref", got.is_ok() == (cur as u64 <= new_total), &format!("C14/ref/{pname}/set_signer_weight/outcome"), || {
